@@ -71,6 +71,10 @@ def scales_for(ck, dtype, tier):
     if dtype == "float16":
         # a scale that is subnormal in float16 (weights with absmax < 7.7e-3 under absmax/127): every change that special-cases tiny scales shows here
         base.append(enc(Fraction(3, 2) * Fraction(2) ** -20))
+    if dtype == "bfloat16":
+        # a scale in the subnormal range of bfloat16 / float32 (below 1.18e-38): elements and products are subnormal too;
+        # a process left in flush-to-zero mode, or code that special-cases denormals, shows here
+        base.append(enc(Fraction(3, 2) * Fraction(2) ** -130))
     if tier == "thorough":
         base += [enc(1), enc(Fraction(2) ** -14), enc(ck.rng.uniform(1e-4, 1e-3)), enc(ck.rng.uniform(0.5, 3.0)), enc(100), enc(Fraction(5, 4) * Fraction(2) ** -22)]
     return base
@@ -113,6 +117,9 @@ def main(tier):
             sshape = [shape[0]] + [1] * (len(shape) - 1) if axis == 0 else [1] * (len(shape) - 1) + [shape[-1]]
             nscale = shape[0] if axis == 0 else shape[-1]
         svals = [Fraction(rng.choice([rng.uniform(0.001, 0.1), 2.0 ** rng.randint(-12, 2), rng.uniform(0.5, 4)])) for _ in range(nscale)]
+        if dtype != "float16" and i % 5 == 4:
+            # float32 / bfloat16 scales in the subnormal range (elements are drawn relative to the scale: subnormal as well)
+            svals = [Fraction(rng.uniform(1, 8)) * Fraction(2) ** -132 for _ in range(nscale)]
         sbits = [N.encode_nearest(v, dtype) for v in svals]
         svals = [N.decode(b, dtype) for b in sbits]
         grid = GRIDS[qt]
@@ -147,6 +154,17 @@ def main(tier):
         bits = [N.encode_nearest(Fraction(rng.uniform(-30, 30)), dtype) for _ in range(12)]
         calls.append({"fn": "quantize_activation", "layout": rng.choice([None, None, None, "transposed", "strided", "offset"]), "dtype": dtype, "shape": [3, 4], "bits": bits, "qtype": Q8[i % 3], "scale_shape": [], "scale_bits": [sb], "requant": False})
 
+    if True:
+        # tensors of more than 2**27 elements (first dimension not a multiple of small block counts): float64 block oracle
+        for k, (rows_, cols_, dt_) in enumerate([(2049, 65537, "float16"), (4099, 32771, "bfloat16")][: 1 if tier == "quick" else 2]):
+            hr = ck.impl("numq", {"calls": [{"fn": "huge", "rows": rows_, "cols": cols_, "dtype": dt_, "qtype": "qint8", "seed": ck.seed + k}], "prelude": False}, timeout=1800)
+            ck.count("huge tensor", f"{rows_}x{cols_} {dt_}")
+            if isinstance(hr, dict) or not hr[0].get("ok"):
+                ck.violation(f"quantizing a {rows_}x{cols_} {dt_} tensor failed: " + str(hr if isinstance(hr, dict) else hr[0])[:200], {"rows": rows_, "cols": cols_, "dtype": dt_})
+            elif hr[0]["bad"] or not hr[0]["shape_ok"]:
+                ck.violation(f"dequantized value is not a closest grid point on a tensor of {hr[0]['numel']} elements ({rows_}x{cols_}, {dt_}, qint8 per-axis): {hr[0]['bad']} element(s), first at {hr[0]['first']}",
+                             {"rows": rows_, "cols": cols_, "dtype": dt_, "seed": ck.seed + k, "first": hr[0]["first"], "bad": hr[0]["bad"]})
+            ck.case(("huge", rows_, cols_, dt_), nontrivial=True)
     for c_ in calls:
         ck.count("layout", c_.get("layout") or "contiguous")
     res = ck.impl("numq", {"calls": sweeps + calls}, timeout=2400)
